@@ -12,6 +12,14 @@
  * observed clock value reached the deadline; if it returns, the result is again all W bytes. Never a partial result. */
 #include "harness.h"
 #include "env_msg.h"
+#ifndef VERIF_NATIVE_REAL
+/* generated C only (spec: cuts): message-text helpers. io_error(int) formats "io error on fd N: ..."; string_for_error(errno)
+ * returns "<n> (<strerror>)" and is used only inside exception messages ("poll failed: ...", "kill failed: ...",
+ * "waitpid failed: ..."); its model returns an empty std::string (libstdc++ SSO layout: pointer to the in-object buffer,
+ * size 0, NUL). Exception TEXT is not part of the claim; throw sites, types and control flow are encoded. */
+void X__ZN5phosg8io_errorC1Ei(uint8_t* self, uint32_t fd) { (void)self; (void)fd; }
+void X__ZN5phosg16string_for_errorB5cxx11Ei(uint8_t* sret, uint32_t err) { (void)err; *(uint8_t**)sret = sret + 16; *(uint64_t*)(sret + 8) = 0; sret[16] = 0; }
+#endif
 int64_t w_communicate(uint32_t stdin_fd, uint32_t stdout_fd, uint32_t pid, uint8_t* in, uint64_t in_n, uint64_t timeout_usecs,
     uint8_t* out, uint64_t cap, int64_t* out_status);
 
